@@ -33,7 +33,7 @@ def sh(cmd, cwd=None, env=None, timeout=3600):
 
 
 def worker(k, names):
-    root = "/tmp/seedcheck-%d" % k
+    root = "/tmp/seedcheck-%s%d" % (os.environ.get("SEEDCHECK_TAG", ""), k)
     wt, vcopy = root + "/wt", root + "/verif"
     os.makedirs(root, exist_ok=True)
     sh("git -C /repo worktree remove --force %s" % wt)
